@@ -140,7 +140,24 @@ struct StaticCastOverflowImpl<Source, Dest, OverflowSituation::FLOAT_TO_ANYTHING
         // this would have been categorized as `DEST_BOUNDS_CONTAIN_SOURCE_BOUNDS` rather than
         // `FLOAT_TO_ANYTHING`.
         return (x < static_cast<Source>(std::numeric_limits<Dest>::lowest())) ||
-               (x > static_cast<Source>(std::numeric_limits<Dest>::max()));
+               is_above_max(x, std::is_integral<Dest>{});
+    }
+
+ private:
+    // Floating point `Dest`: its max is exactly representable in the (wider) `Source`.
+    static constexpr bool is_above_max(Source x, std::false_type) {
+        return x > static_cast<Source>(std::numeric_limits<Dest>::max());
+    }
+
+    // Integral `Dest`: its max is one less than a power of 2.  If `Source` has too few digits to
+    // hold it, then casting it to `Source` would round _up_ to that power of 2 (e.g., `INT32_MAX`
+    // as a `float` is 2^31, which does _not_ fit in `int32_t`).  The power of 2 itself is always
+    // representable, and no `Source` value lies strictly between the two, so "greater than max" is
+    // "greater than or equal to the power of 2".
+    static constexpr bool is_above_max(Source x, std::true_type) {
+        return (std::numeric_limits<Dest>::digits <= std::numeric_limits<Source>::digits)
+                   ? (x > static_cast<Source>(std::numeric_limits<Dest>::max()))
+                   : (x >= static_cast<Source>(std::numeric_limits<Dest>::max() / 2 + 1) * Source{2});
     }
 };
 
